@@ -13,7 +13,10 @@ LEVEL_TEXT = ('Generated Linen module programs (compact and setup style, nesting
               '10 `mutable` filter forms (False/True/name/list/()/DenyList/nested DenyList) x variables as dict / FrozenDict / mixed x '
               'flax_return_frozendict x typed and legacy uint32 keys x 1-4 repeated calls x methods, each executed on the real '
               'Module.init/apply and flax.core.init/apply under a snapshot contract, a write-event monitor on Scope.put_variable, '
-              'post-call poisoning of the returned trees and observation-on/off differentials.')
+              'post-call poisoning of the returned trees and observation-on/off differentials.'
+              ' Further streams: collection names that contain one another, caller-supplied empty placeholder'
+              ' collections, init/apply on bound / unbound / re-wrapped module objects with attribute sub-modules,'
+              ' variables whose value is a caller-owned dict, sow names that coincide with variable names.')
 LEVEL_NOTE = ('Array leaves are immutable JAX arrays and are shared between input and output by design (not flagged). User code reaching '
               'into module.variables and mutating it is outside the property.')
 TECHNIQUE = 'runtime monitoring: snapshot contract + write-event log vs reference mutability predicate + poisoning/aliasing probe on the real init/apply'
